@@ -287,9 +287,11 @@ func (r *Router) lockServiceForDeploy(name string) func() {
 	lock, _ := r.deployLocks.LoadOrStore(name, &sync.Mutex{})
 	mutex := lock.(*sync.Mutex)
 
+	simYield("deploy.lock", name)
 	mutex.Lock()
 	return func() {
 		mutex.Unlock()
+		simYield("deploy.unlocked", name)
 	}
 }
 
